@@ -149,7 +149,39 @@ def run_typeuses(ctx, rep, rid="R-C02-typeuses"):
             r.finding(inst + "|type-not-looked-up", where, "a variable declared with a %s initializer names a type that is never looked up: an undeclared type is accepted there (no P0022)" % name)
 
 
+def run_identity(ctx, rep, rid="R-C02-identity"):
+    """Which declaration a name refers to is decided by the name (or by the identity of the declaration found under it), never by comparing
+    what two declarations *contain*: two enumerations with the same list of values are different types, two structures with the same
+    elements likewise.  In the analyzer no `==`/`!=` is applied to two collections of DSL nodes (slices or vectors).  Zero expected."""
+    import re
+    r = rep.rule(rid, "no rule or transform of the analyzer compares two collections of DSL nodes for equality (contents are not identity): "
+                      "a qualifier, alias or reference is resolved by name or by the identity of the declaration", floor=0, floor_what="collection comparisons in the analyzer")
+    n = 0
+    k = {}
+    for b in sorted(ctx.prog.bodies.values(), key=lambda x: x.id):
+        if b.f["crate"] != "ironplc_analyzer" or "::test" in norm(b.id) or b.f.get("exp"):
+            continue
+        for c in b.calls():
+            u = c.u or c.callee or ""
+            if not (u.endswith("PartialEq::eq") or u.endswith("PartialEq::ne") or "as core::cmp::PartialEq" in (c.callee or "")):
+                continue
+            ga = re.sub(r"\s", "", c.ga or "")
+            if ga.startswith("[") and ga.endswith("]"):
+                ga = ga[1:-1]          # the list of generic arguments itself is printed in brackets
+            if not re.search(r"(\[|Vec<)ironplc_dsl::", ga):
+                continue
+            n += 1
+            fn = norm(b.id).replace("ironplc_analyzer::", "")
+            k[fn] = k.get(fn, 0) + 1
+            from vlib.mir import loc_str
+            r.finding("%s|collection ==#%d" % (fn, k[fn]), loc_str(b.f, c.loc), "two collections of nodes (%s) are compared for equality: declarations with equal contents are taken for the same declaration" % ga[:80])
+    if not n:
+        r.count_override = 1
+        r.note("no comparison of node collections in the analyzer today (zero expected; positive example: seeded/C02-O)")
+
+
 def run(ctx, rep):
+    run_identity(ctx, rep)
     run_enumunique(ctx, rep)
     run_taskrefs(ctx, rep)
     run_typeuses(ctx, rep)
